@@ -89,6 +89,7 @@ template <class Pixel, bool Planar> struct PixelKindBase
     using pixel_t = Pixel;
     static constexpr bool planar = Planar;
     static constexpr bool is_tracked = false;
+    static constexpr int objects_per_pixel = 1;
     static constexpr int nchan = gil::num_channels<Pixel>::value;
     static constexpr bool nth_ok = is_plain_pixel<Pixel>::value; // incl. single-channel pixels (nth_channel_view(gray, 0))
     static constexpr int chan_align = (int)alignof(Pixel);
@@ -124,6 +125,7 @@ template <class Img> struct BitAlignedKindBase
     using pixel_t = typename Img::view_t::reference; // bit_aligned_pixel_reference<...>
     static constexpr bool planar = false;
     static constexpr bool is_tracked = false;
+    static constexpr int objects_per_pixel = 1;
     static constexpr int nchan = gil::num_channels<pixel_t>::value;
     static constexpr bool nth_ok = false; // nth_channel_view needs a homogeneous pixel
     static constexpr int chan_align = 1;
@@ -158,6 +160,7 @@ struct TrackedKind
     using pixel_t = Tracked;
     static constexpr bool planar = false;
     static constexpr bool is_tracked = true;
+    static constexpr int objects_per_pixel = 1; // registry entries per pixel
     static constexpr int nchan = 1;
     static constexpr bool nth_ok = false;
     static constexpr int chan_align = (int)alignof(Tracked);
